@@ -175,7 +175,7 @@ pub fn check(sc: &Scenario, env: &mut Env) -> Result<Outcome, HarnessError> {
                     .filter(|e| {
                         let names: Vec<&str> = rel_to(&e.wp, &w.base).split('/').collect();
                         let j = names.len();
-                        j <= comps.len() && !comps[j - 1].is_match(names[j - 1])
+                        j <= comps.len() && !comps[j - 1].is_match(lossy(names[j - 1]).as_str())
                     })
                     .map(|e| e.wp.as_str())
                     .collect();
